@@ -20,17 +20,15 @@ PID = "C19"
 THEOREMS = ["hint_roundtrip", "writeTo_too_long", "enc_bytes", "payload_magic_safe", "one_mapping_per_hint",
             "chunking_independent", "chunking_independent'", "code_split", "hints_removed", "output_magic_free",
             "positions_exact", "positions_exact_init", "columns_units", "columns_units_needs_ascii",
-            "placeAt_correct", "offset_js_counterexample", "offset_js_partial", "offset_js_line",
+            "placeAt_correct", "offset_js", "offset_js_points_at_text", "offset_js_line",
             "pending_flushed_by_write", "write_without_pending", "setPos_last_wins", "every_setpos_reported_counterexample", "printf_hint_first",
-            "catch_restores", "stmt_position_exact"]
+            "catch_restores", "stmt_position_exact", "alternating_positions_reported", "stmts_all_mapped",
+            "rwItems_sub", "minify_keeps_mappings", "offset_js_counterexample_before_repair"]
 
 # the fixed go/token.FileSet shared with harness/cmd/gvh_c19/lines.go (fileSpecs): name, size, line start offsets
 FILES = [("a.go", 500, list(range(0, 500, 25))), ("pkg/b.go", 300, list(range(0, 300, 17))), ("c.go", 100, [0, 1, 2, 50, 99])]
-KNOWN_JS = "C19 WriteJS first-line column not shifted (JS text starts at column != 0)"
-KNOWN_IF = "C19 if statement has no mapping (position overwritten by NoPos of the synthetic case clause)"
 KNOWN_SWITCH = "C19 switch tag evaluation has no mapping (synthetic assignment without position)"
 KNOWN_CLOSURE = "C19 call of a function literal: the call after the literal body has no mapping (NoPos hint ends the inner statement list)"
-KNOWN_NUMBERIC = "C19 original file missing: compiler/prelude/numberic.js (misspelt name of numeric.js)"
 
 
 def hx(b):
@@ -202,29 +200,6 @@ def kind(op, ans):
     return k
 
 
-def js_signature(op, impl, spec):
-    """the one recorded defect: every difference is a first-line mapping whose column lacks the start column"""
-    try:
-        a = [x.split(":") for x in impl.split(";")]
-        b = [x.split(":") for x in spec.split(";")]
-        if len(a) != len(b):
-            return None
-        shift = None
-        first_line = min(int(x[0]) for x in b)
-        for x, y in zip(a, b):
-            if x == y:
-                continue
-            if x[0] != y[0] or x[2:] != y[2:] or int(y[0]) != first_line:
-                return None
-            d = int(y[1]) - int(x[1])
-            if d <= 0 or (shift is not None and d != shift):
-                return None
-            shift = d
-        return KNOWN_JS if shift else None
-    except Exception:
-        return None
-
-
 def filter_tie(chk, tier):
     rng = chk.rng
     nrand = 6000 if tier == "thorough" else 900
@@ -326,7 +301,7 @@ def js_tie(chk, tier):
         raise RuntimeError("gvh_c19 js: " + [a for a in impl if a.startswith("harness-error")][0])
     model = C.run_driver(PID, ops)
     spec = C.run_driver(PID, [o.replace("srcmap js ", "srcmap jsspec ", 1) for o in ops])
-    chk.compare("js-offset", ops, impl, model, spec=spec, signature=js_signature,
+    chk.compare("js-offset", ops, impl, model, spec=spec,
                 kind=lambda o, c: "js:minify=%s" % o.split()[5])
     return len(ops)
 
@@ -469,28 +444,33 @@ class ProgGen:
                 m = self.mk()
                 l = self.emit(depth, "if v > %d {" % m)
                 self.probes.append((l, "contains", m))
-                self.unmapped[l] = KNOWN_IF
                 self.stmts(depth + 1, rng.randrange(1, 3), budget - 1)
                 if rng.random() < 0.5:
                     self.emit(depth, "} else {")
                     self.stmts(depth + 1, rng.randrange(1, 3), budget - 1)
                 self.emit(depth, "}")
             elif k < 0.8 and budget > 0:
-                self.emit(depth, "for i := 0; i < 2; i++ {")
+                l = self.emit(depth, "for i := 0; i < 2; i++ {")
+                self.probes.append((l, "mapped", 0))
                 self.stmts(depth + 1, rng.randrange(1, 3), budget - 1)
                 self.emit(depth, "}")
             elif k < 0.88 and budget > 0:
                 m1, m2 = self.mk(), self.mk()
-                self.emit(depth, "switch v {")
-                self.emit(depth, "case %d:" % m1)
+                l = self.emit(depth, "switch v {")
+                self.probes.append((l, "mapped", 0))
+                self.unmapped[l] = KNOWN_SWITCH      # the position of the switch is overwritten by the tag assignment's NoPos
+                l = self.emit(depth, "case %d:" % m1)
+                self.probes.append((l, "contains", m1))
                 self.stmts(depth + 1, 1, budget - 1)
-                self.emit(depth, "case %d, %d:" % (m2, m2 + 100000))
+                l = self.emit(depth, "case %d, %d:" % (m2, m2 + 100000))
+                self.probes.append((l, "contains", m2))
                 self.stmts(depth + 1, 1, budget - 1)
                 self.emit(depth, "default:")
                 self.stmts(depth + 1, 1, budget - 1)
                 self.emit(depth, "}")
             elif k < 0.94 and budget > 0:
-                self.emit(depth, "func() {")
+                l = self.emit(depth, "func() {")
+                self.probes.append((l, "mapped", 0))
                 self.stmts(depth + 1, rng.randrange(1, 3), budget - 1)
                 self.emit(depth, "}()")
             else:
@@ -532,7 +512,6 @@ class ProgGen:
                     l = self.emit(1, "v = arr[v]")
                 elif kind == "index-if":
                     l = self.emit(1, "if arr[v] > 0 {")
-                    self.unmapped[l] = KNOWN_IF
                     self.emit(2, "v = 0")
                     self.emit(1, "}")
                 elif kind == "index-for":
@@ -549,7 +528,6 @@ class ProgGen:
                     self.emit(1, "if v < 0 {")
                     self.emit(2, "v = 1")
                     l = self.emit(1, "} else if arr[v] > 0 {")
-                    self.unmapped[l] = KNOWN_IF
                     self.emit(2, "v = 0")
                     self.emit(1, "}")
                 elif kind == "index-closure":
@@ -588,14 +566,14 @@ class ProgGen:
                 else:
                     l = self.emit(1, "if %s > 0 {" % call)
                     if not self.blocking:          # an `if` around a blocking call is flattened and keeps its position
-                        self.unmapped[l] = KNOWN_IF
-                    self.emit(2, "v = 1")
+                            self.emit(2, "v = 1")
                     self.emit(1, "}")
                 self.chain.append(l)
             self.prev_recv = recv
             if kind != "index-return" or i > 0:
                 self.stmts(1, rng.randrange(0, 3), 1)
-                self.emit(1, "return v")
+                l = self.emit(1, "return v")
+                self.probes.append((l, "mapped", 0))
             self.emit(0, "}")
             self.emit(0, "")
         self.emit(0, "func main() {")
@@ -610,6 +588,9 @@ class ProgGen:
         self.chain.append(l)
         self.emit(1, "println(v)")
         self.emit(0, "}")
+        for l in self.chain:
+            if l not in self.unmapped or self.unmapped[l] == KNOWN_SWITCH:
+                self.probes.append((l, "mapped", 0))
         return "\n".join(self.lines) + "\n"
 
 
@@ -694,13 +675,9 @@ def check_program(chk, job, gen, res, stats):
             srcs[s] = resolve_source(s, res, job["files"])
         L = srcs[s]
         if L is None:
-            if os.path.basename(s) == "numberic.js":
-                fails.append((KNOWN_NUMBERIC, "original-file-missing", s))
-                L = srcs[s] = open(os.path.join(C.REPO, "compiler", "prelude", "numeric.js"), "rb").read().split(b"\n")
-            else:
-                fails.append((None, "original-file-missing", s))
-                srcs[s] = []
-                continue
+            fails.append((None, "original-file-missing", s))
+            srcs[s] = []
+            continue
         if L == []:
             continue
         is_js = s.endswith(".js")
@@ -716,10 +693,7 @@ def check_program(chk, job, gen, res, stats):
                 g = jl[gl][gc:].lstrip(b" \t")[:len(t.group(0))]
                 stats[tag + ":js-token-probes"] += 1
                 if g != t.group(0):
-                    inc = s.endswith(".inc.js")
-                    pre = jl[gl][:gc]
-                    sig = KNOWN_JS if (inc and minify and jl[gl][gc + 12:].startswith(t.group(0))) else None
-                    fails.append((sig, "js-mapping-column", "%s:%d:%d token %r but generated text at %d:%d is %r" % (
+                    fails.append((None, "js-mapping-column", "%s:%d:%d token %r but generated text at %d:%d is %r" % (
                         s, ol1, oc, t.group(0), gl + 1, gc, jl[gl][gc:gc + 24])))
     order = sorted(((mp[0], mp[1], mp[2] or "", mp[3], mp[4], mp[5]) for mp in maps), key=lambda x: (x[0], x[1]))
     stats[tag + ":mappings"] += len(maps)
@@ -735,7 +709,7 @@ def check_program(chk, job, gen, res, stats):
         cands = [mp for mp in maps if mp[2] in main_name and mp[3] == line - 1]
         stats[tag + ":stmt-probes"] += 1
         if not cands:
-            fails.append((gen.unmapped.get(line), "statement-without-mapping", "main.go:%d (marker %d)" % (line, marker)))
+            fails.append((gen.unmapped.get(line), "statement-without-mapping", "main.go:%d (%s probe, marker %d): %s" % (line, kind_, marker, gen.lines[line - 1].strip())))
             continue
         mp = min(cands, key=lambda x: (x[0], x[1]))
         gl, gc = mp[0], mp[1]
@@ -744,7 +718,7 @@ def check_program(chk, job, gen, res, stats):
         before = jl[gl][:gc].rstrip(b" \t")
         text = seg.lstrip(b" \t")
         mk = str(marker).encode()
-        ok = mk in text
+        ok = mk in text or kind_ == "mapped"
         if kind_ == "exact":
             ok = text.startswith(b'console.log("m%d");' % marker)
         boundary = before == b"" or before[-1:] in b";{}:" or before.endswith(b"*/")
@@ -785,8 +759,7 @@ def check_program(chk, job, gen, res, stats):
         stats[tag + ":incjs-frames"] += len(inc_frames)
         want = [("helper.inc.js", 5), ("helper.inc.js", 9)]
         if inc_frames != want:
-            sig = KNOWN_JS if minify and len(inc_frames) == 2 and all(f and f[0] == "helper.inc.js" for f in inc_frames) else None
-            fails.append((sig, "incjs-frame-line", "frames inside jsStack resolve to %s, want %s" % (inc_frames, want)))
+            fails.append((None, "incjs-frame-line", "frames inside jsStack resolve to %s, want %s" % (inc_frames, want)))
     return fails
 
 
